@@ -62,7 +62,7 @@ PROPS["C02"] = dict(
                "tree's own Table.c by unity inclusion; derived quantities recomputed). Sequences are sampled.",
     quick=[("asan", 16, 40), ("plain", 8, 40)],
     thorough=[("asan", 16, 150), ("plain", 16, 400, {"env": {"VH_BIG": "1"}}), ("memcheck", 8, 3, {"budget": 900})],
-    floors={"quick": {"updates_of_displaced_key": 1, "wrapped_entries_observed": 1,
+    floors={"quick": {"tables_with_values_wider_than_keys": 50, "updates_of_displaced_key": 1, "wrapped_entries_observed": 1,
                       "removals_shifting_back_2_or_more": 1, "rehash_grow": 5, "rehash_shrink": 5,
                       "set_after_resize0": 1, "distinct_slot_counts_seen": 5, "assign_from_tree": 1,
                       "copies": 1}},
@@ -261,7 +261,7 @@ PROPS["C06"] = dict(
                "the latest at teardown. Probe destructors allocate nothing.",
     quick=[("asan", 16, 45), ("plain", 8, 90)],
     thorough=[("asan", 16, 900), ("plain", 16, 3000), ("memcheck", 8, 3, {"budget": 900})],
-    floors={"quick": {"garbage_pairs_owner_swept_before_owned": 20, "boxes_made_inside_stop_window": 100, "boxes_owning_a_raw_object": 100, "containers_of_boxes_inside_stop_window": 100, "garbage_pairs_owned_swept_before_owner": 20,
+    floors={"quick": {"garbage_pairs_owner_swept_before_owned": 20, "boxes_made_inside_stop_window": 100, "roots_parked_off_the_stack": 200, "boxes_owning_a_raw_object": 100, "containers_of_boxes_inside_stop_window": 100, "garbage_pairs_owned_swept_before_owner": 20,
                       "deletions_inside_stop_window": 10, "allocations_inside_stop_window": 10,
                       "worker_teardowns_with_live_garbage": 50, "process_teardowns_with_live_garbage": 50,
                       "del_root": 20, "del_raw": 20, "del_of_box": 10, "containers_of_boxes": 20,
